@@ -891,7 +891,7 @@ func ruleP6(c *Ctx) *RuleResult {
 		if okInit {
 			r.ok(t+".initialize|creates-storage", c.Pos(ini.Pos()), FuncName(ini), "the storage field holds the file created by initialize()", "storageFactory.NewFile result")
 		} else {
-			r.fail(t+".initialize|creates-storage", c.Pos(fn.Pos()), t, "the storage field holds the file created by initialize()", "no store of a NewFile result into the storage field")
+			r.undecided("%s: %s — %s (the construct this rule is anchored on was not found: no verdict)", t+".initialize|creates-storage", "the storage field holds the file created by initialize()", "no store of a NewFile result into the storage field")
 		}
 	}
 	// (b) fileDisk.Remove removes the path given to os.Create
@@ -952,7 +952,7 @@ func ruleP6(c *Ctx) *RuleResult {
 		if loopClose {
 			r.ok("muxerStream.close|listed", c.Pos(fn.Pos()), FuncName(fn), "stream close calls close() on every listed segment", "range over s.segments")
 		} else {
-			r.fail("muxerStream.close|listed", c.Pos(fn.Pos()), FuncName(fn), "stream close calls close() on every listed segment", "no loop over s.segments calling close()")
+			r.undecided("%s: %s — %s (the construct this rule is anchored on was not found: no verdict)", "muxerStream.close|listed", "stream close calls close() on every listed segment", "no loop over s.segments calling close()")
 		}
 		if slotClose {
 			r.ok("muxerStream.close|open", c.Pos(fn.Pos()), FuncName(fn), "stream close calls close() on the open segment", "s.nextSegment.close()")
@@ -981,7 +981,7 @@ func ruleP6(c *Ctx) *RuleResult {
 		if okD {
 			r.ok("Muxer.Close|streams", c.Pos(fn.Pos()), FuncName(fn), "Close closes every stream", "range over m.streams")
 		} else {
-			r.fail("Muxer.Close|streams", c.Pos(fn.Pos()), FuncName(fn), "Close closes every stream", "no loop over m.streams calling close()")
+			r.undecided("%s: %s — %s (the construct this rule is anchored on was not found: no verdict)", "Muxer.Close|streams", "Close closes every stream", "no loop over m.streams calling close()")
 		}
 	}
 	// (e) a segment taken out of the open slot is listed or closed on every path to a return
